@@ -44,6 +44,9 @@ def part_des(chk, quick, rnd):
     add(kind="block", key=[0] * 8, input=[0] * 8, salt=0, rounds=1)
     add(kind="block", key=[255] * 8, input=[255] * 8, salt=0, rounds=1)
     # salted, iterated
+    # the product space of "salted or not" and "iterated or not" - unsalted iteration included
+    for rounds in (2, 3, 5, 25):
+        add(kind="block", key=rb(8), input=rb(8), salt=0, rounds=rounds)
     salts = [1 << b for b in range(24)] + [4095, 0xFFFFFF, 0xFFF000, 0x555555] + [rnd.randrange(1 << 24) for _ in range(6 if quick else 60)]
     for s in (salts[::3] if quick else salts):
         add(kind="block", key=rb(8), input=rb(8), salt=s, rounds=rnd.choice([1, 2, 3]))
